@@ -509,6 +509,10 @@ pub fn run(tier: &str, rec: &Recorder) -> RunOutput {
             let med: Vec<Built> = med.into_iter().enumerate().filter(|(i, _)| i % stride == 0).map(|x| x.1).collect();
             let tot = std::sync::Mutex::new(Counters::default());
             par_for(med.len(), |i| {
+                if Instant::now() > deadline {
+                    stats.capped.store(true, std::sync::atomic::Ordering::Relaxed);
+                    return;
+                }
                 let mut c = Counters::default();
                 check_free_reproducible(&med[i], rec, &mut c, envs.min(5));
                 c.inc("medium_inexact_weight_graphs");
@@ -521,6 +525,10 @@ pub fn run(tier: &str, rec: &Recorder) -> RunOutput {
             let ph = Params { bound: 1, budget: if tier == "quick" { 300 } else { 5_000 }, seeds: vec![0, 1, 2], float_sites: false };
             let tot = std::sync::Mutex::new(Counters::default());
             par_for(hubs.len(), |i| {
+                if Instant::now() > deadline {
+                    stats.capped.store(true, std::sync::atomic::Ordering::Relaxed);
+                    return;
+                }
                 let _ = on_fresh_thread_scoped(seed, || {
                     let mut c = Counters::default();
                     check_reproducible(&hubs[i], rec, &mut c, &ph);
